@@ -16,8 +16,10 @@
 (*   / read_dbcs (strings inside one record without runs / ExtRst: C12     *)
 (*   covers the rest), the Lbl arm + read_unicode_string_no_cch, the       *)
 (*   FORMULA arm (string results), src/cfb.rs XlsEncoding::from_codepage / *)
-(*   high_byte / decode_to, encoding_rs Encoding::decode (BOM sniffing     *)
-(*   included) and src/formats.rs detect_custom_number_format.             *)
+(*   high_byte / decode_to (as repaired by /repo 4e8471f: UTF-16LE for a   *)
+(*   string with an option-flags byte, the CODEPAGE page for a byte string,*)
+(*   no BOM sniffing; AsWas = TRUE keeps Encoding::decode of the page with *)
+(*   its BOM sniffing) and src/formats.rs detect_custom_number_format.     *)
 (*                                                                         *)
 (* Text is a sequence of Unicode code points.  The decoding tables below   *)
 (* hold only the bytes the checked alphabets can produce; a byte outside   *)
@@ -31,6 +33,11 @@
 (* in a BIFF5 workbook (not meaningful), force_codepage.                   *)
 (***************************************************************************)
 EXTENDS Naturals, Sequences, FiniteSets, TLC, SequencesExt
+
+\* FALSE: the reader as repaired by /repo commit 4e8471f (a string with an option-flags byte is UTF-16LE
+\* whatever CODEPAGE says; no byte-order-mark sniffing).  TRUE: the reader as it was before (every string
+\* through Encoding::decode of the CODEPAGE page) -- kept as a configuration TLC has to refute.
+CONSTANT AsWas
 
 MinN(a, b) == IF a < b THEN a ELSE b
 MaxN(a, b) == IF a > b THEN a ELSE b
@@ -105,15 +112,18 @@ Decode(cp, bs) ==
 HighByte(enc, hb) == IF hb # "none" THEN hb ELSE IF Kind(enc) = "sb" THEN "none" ELSE "false"
 HB(b) == IF b % 2 = 1 THEN "true" ELSE "false"
 
-\* decode_to(stream, len, s, high_byte): `arg` is what is handed to Encoding::decode
+\* decode_to(stream, len, s, high_byte): `arg` is what is handed to the decoder -- UTF-16LE when the caller
+\* passed an option-flags bit (the argument, not the overridden value), the CODEPAGE page otherwise,
+\* decode_without_bom_handling in both cases.  `call` = <<page used, bytes, text>> (re-evaluated with encoding_rs)
 DecodeTo(enc, stream, len, hb) ==
   LET h == HighByte(enc, hb)
       l == IF h = "true" THEN MinN(Len(stream) \div 2, len) ELSE MinN(Len(stream), len)
       arg == CASE h = "none"  -> Take(stream, l)
                [] h = "false" -> [k \in 1..(2 * l) |-> IF k % 2 = 1 THEN stream[(k + 1) \div 2] ELSE 0]
                [] h = "true"  -> Take(stream, 2 * l)
-      text == Decode(enc, arg)
-  IN [l |-> l, ub |-> IF h = "true" THEN 2 * l ELSE l, text |-> text, call |-> <<enc, arg, text>>]
+      page == IF ~AsWas /\ hb # "none" THEN 1200 ELSE enc
+      text == IF AsWas THEN Decode(enc, arg) ELSE Raw(page, arg)
+  IN [l |-> l, ub |-> IF h = "true" THEN 2 * l ELSE l, text |-> text, call |-> <<page, arg, text>>]
 
 --------------------------------------------------------------------------
 (* src/formats.rs detect_custom_number_format over code points: "o" | "dt" | "td" *)
